@@ -471,6 +471,10 @@ pub fn run(args: &[String]) -> i32 {
         run_with::<String>(args)
     } else if payload == "rich" {
         run_with::<Rich>(args)
+    } else if payload == "zst" {
+        run_with::<Zst>(args)
+    } else if payload == "large" {
+        run_with::<Large>(args)
     } else if payload == "option" {
         run_with::<Option<u32>>(args)
     } else {
@@ -526,6 +530,52 @@ fn run_with<P: Payload + Clone>(args: &[String]) -> i32 {
             if events > 0 {
                 r.drive("fail", events, n + 2);
             }
+        }
+        "wide" => {
+            // very wide sibling lists and long top-level chains (positions far from both ends)
+            r.reset(0);
+            let w: usize = 18 + (seed % 4) as usize * 4;            // 18 .. 30 children
+            let root = r.call(&Call { op: "new".into(), a: 0, b: 0, v: 1, checked: false, r: vec![] }).new;
+            let mut kids = Vec::new();
+            for i in 0..w {
+                let d = r.call(&Call { op: "append_value".into(), a: root, b: 0, v: i as u32 + 2, checked: false, r: vec![] });
+                kids.push(d.new);
+            }
+            // a long top-level chain next to the root
+            let mut tops = vec![root];
+            for i in 0..(w / 2) {
+                let d = r.call(&Call { op: "new".into(), a: 0, b: 0, v: (100 + i) as u32, checked: false, r: vec![] });
+                let after = tops[tops.len() - 1];
+                r.call(&Call { op: if i % 2 == 0 { "insert_after" } else { "insert_before" }.into(), a: after, b: d.new, v: 0, checked: true, r: vec![] });
+                tops.push(d.new);
+            }
+            let all: Vec<usize> = kids.iter().chain(tops.iter()).copied().filter(|s| *s != 0).collect();
+            let ops = ["insert_after", "insert_before", "append", "prepend"];
+            for k in 0..events.max(30) {
+                if r.broken {
+                    break;
+                }
+                let a = all[r.rng.gen_range(0..all.len())];
+                let b = all[r.rng.gen_range(0..all.len())];
+                let a_live = r.live_slots().contains(&a);
+                match k % 7 {
+                    0 | 1 | 2 if !a_live => {
+                        // only live nodes may be observed / removed / detached; use the id in an insert instead
+                        r.call(&Call { op: "append".into(), a: b, b: a, v: 0, checked: true, r: vec![] });
+                    }
+                    0 => r.observe(a),
+                    1 => {
+                        r.call(&Call { op: "remove".into(), a, b: 0, v: 0, checked: false, r: vec![] });
+                    }
+                    2 => {
+                        r.call(&Call { op: "detach".into(), a, b: 0, v: 0, checked: false, r: vec![] });
+                    }
+                    _ => {
+                        r.call(&Call { op: ops[(k % 4) as usize].into(), a, b, v: 0, checked: true, r: vec![] });
+                    }
+                }
+            }
+            r.observe(root);
         }
         "churn200" => {
             // a few hundred recycles of one slot, then ordinary life (used to compare builds, C17)
